@@ -1,0 +1,247 @@
+//go:build verif
+
+package main
+
+import (
+	"fmt"
+	"math"
+	"mltwist/internal/consoleui/verifhook"
+	"mltwist/internal/deps"
+	"mltwist/internal/parser"
+	"mltwist/internal/state"
+	"mltwist/internal/state/memory"
+	"mltwist/pkg/model"
+	"strings"
+)
+
+// Screen rendering (C24).
+//
+//	render lines <CODE> <cursor> <h>              listing view (lines.View)
+//	render mem <MEM> <cursor> <h>                 memory view (memview)
+//	render regs <REGS> <h>                        register view (emulate)
+//	render prompt <h>                             command prompt
+//	render comp emu <CODE> <REGS> <cursor> <h>    NewComposite(lineView, regView) of emulate.New
+//	render comp uidis <CODE> <cursor> <h>         NewComposite(mode.View(), commandPrompt{}), disassemble mode
+//	render comp uiemu <CODE> <REGS> <cursor> <h>  the same for the emulation mode
+//	render comp uimem <MEM> <cursor> <h>          the same for the memory mode
+//	render comp syn <k> (<min> <max>)... <h>      composite of k stub views printing exactly what they are granted
+//	phicut <n>                                    int(math.Floor(float64(n)/(math.Phi+1)))
+//	phisweep <lo> <cnt>                           the same for lo, lo+1, ..., lo+cnt-1
+//
+// CODE is "<entry> <n> (<addr> <len> <neffects> EF...)..." as in bbparse, MEM is
+// "nil" or "<n> op1 ... opn" as in the sparse op (a history on a fresh
+// memory.Sparse), REGS is "<k> (<key> <w> E)..." (Regs.Store(key, E, w) on a
+// fresh state.State), cursor is an index (negative: from the end, clamped) or
+// "mid", h is the height handed to Print.
+//
+// Result: "<ok|err|PANIC> <newlines> <open> <MinLines> <MaxLines>" followed by
+//
+//	lines:  "L <rows> c <cursor> B <blocks> I <instructions> win <first|-> <numbered> <cursorrow|->"
+//	mem:    "R <rows> c <cursor|-> win <first|-> <numbered> <cursorrow|->"
+//	comp:   the fields of the listing / memory view if there is one and
+//	        "g <k> g1 ... gk" (the result of distributeLines, "g -" below
+//	        MinLines), for uiemu also "ig <k> ..." (the nested composite) and
+//	        for syn "seen <k> ..." (the heights the stubs were asked for).
+//
+// newlines counts the '\n' bytes written to stdout, open is 1 if the output
+// ends with an unterminated row. "err:code" / "err:new" if the code or the
+// emulation mode cannot be built.
+
+func fmtIdx(i int) string {
+	if i < 0 {
+		return "-"
+	}
+	return fmt.Sprintf("%d", i)
+}
+
+func fmtInts(tag string, xs []int) string {
+	if xs == nil {
+		return " " + tag + " -"
+	}
+	var sb strings.Builder
+	fmt.Fprintf(&sb, " %s %d", tag, len(xs))
+	for _, x := range xs {
+		fmt.Fprintf(&sb, " %d", x)
+	}
+	return sb.String()
+}
+
+func fmtRender(r verifhook.SuicRender) string {
+	open := 0
+	if r.Open {
+		open = 1
+	}
+	return fmt.Sprintf("%s %d %d %d %d", r.Status, r.Newlines, open, r.Min, r.Max)
+}
+
+func fmtWin(r verifhook.SuicRender) string {
+	return fmt.Sprintf(" win %s %d %s", fmtIdx(r.First), r.Numbered, fmtIdx(r.CursorRow))
+}
+
+func fmtLinesInfo(r verifhook.SuicRender, code *deps.Code) string {
+	return fmt.Sprintf(" L %d c %s B %d I %d", r.Size, fmtIdx(r.Cursor), code.Len(), code.NumInstr())
+}
+
+func fmtMemInfo(r verifhook.SuicRender) string {
+	return fmt.Sprintf(" R %d c %s", r.Size, fmtIdx(r.Cursor))
+}
+
+func (t *tokens) renderCode() (*deps.Code, model.Addr, bool) {
+	entry := t.uint()
+	n := t.int()
+	if n < 0 {
+		panic(parseError("bad instruction count"))
+	}
+	var seq []parser.Instruction
+	for i := 0; i < n; i++ {
+		seq = append(seq, t.instruction())
+	}
+	code, err := deps.NewCode(model.Addr(entry), seq)
+	if err != nil {
+		return nil, 0, false
+	}
+	return code, model.Addr(entry), true
+}
+
+func (t *tokens) renderMem() memory.Memory {
+	if t.toks[t.pos] == "nil" {
+		t.next()
+		return nil
+	}
+	n := t.int()
+	m := memory.NewSparse()
+	var seen []aliasRecord
+	for i := 0; i < n; i++ {
+		if a := sparseOp(m, t, &seen); a == "PANIC" {
+			panic("memory history panics")
+		}
+	}
+	return m
+}
+
+func (t *tokens) renderRegs() *state.State {
+	k := t.int()
+	if k < 0 {
+		panic(parseError("bad register count"))
+	}
+	stat := state.New()
+	for i := 0; i < k; i++ {
+		key := t.key()
+		w := t.width()
+		stat.Regs.Store(key, t.expr(), w)
+	}
+	return stat
+}
+
+func phiCut(n int) int { return int(math.Floor(float64(n) / (math.Phi + 1))) }
+
+func renderComp(t *tokens) string {
+	switch kind := t.next(); kind {
+	case "emu", "uiemu":
+		code, entry, ok := t.renderCode()
+		stat := t.renderRegs()
+		cursor := t.next()
+		h := t.int()
+		if !ok {
+			return "err:code"
+		}
+		var r verifhook.SuicRender
+		var err error
+		if kind == "emu" {
+			r, err = verifhook.SuicRenderEmu(code, entry, stat, cursor, h)
+		} else {
+			r, err = verifhook.SuicRenderUIEmu(code, entry, stat, cursor, h)
+		}
+		if err != nil {
+			return "err:new"
+		}
+		s := fmtRender(r) + fmtLinesInfo(r, code) + fmtWin(r) + fmtInts("g", r.Grants)
+		if kind == "uiemu" {
+			s += fmtInts("ig", r.InnerGrants)
+		}
+		return s
+	case "uidis":
+		code, _, ok := t.renderCode()
+		cursor := t.next()
+		h := t.int()
+		if !ok {
+			return "err:code"
+		}
+		r := verifhook.SuicRenderUIDis(code, cursor, h)
+		return fmtRender(r) + fmtLinesInfo(r, code) + fmtWin(r) + fmtInts("g", r.Grants)
+	case "uimem":
+		mem := t.renderMem()
+		cursor := t.next()
+		h := t.int()
+		r := verifhook.SuicRenderUIMem(mem, cursor, h)
+		return fmtRender(r) + fmtMemInfo(r) + fmtWin(r) + fmtInts("g", r.Grants)
+	case "syn":
+		k := t.int()
+		if k < 0 || k > 64 {
+			panic(parseError("bad element count"))
+		}
+		bounds := make([][2]int, k)
+		for i := range bounds {
+			bounds[i][0] = t.int()
+			bounds[i][1] = t.int()
+		}
+		h := t.int()
+		if h > 1<<20 {
+			panic(parseError("height too large"))
+		}
+		r := verifhook.SuicRenderSyn(bounds, h)
+		return fmtRender(r) + fmtInts("g", r.Grants) + fmtInts("seen", r.Seen)
+	default:
+		panic(parseError("bad composite kind " + kind))
+	}
+}
+
+func init() {
+	register("render", func(t *tokens) string {
+		switch what := t.next(); what {
+		case "lines":
+			code, _, ok := t.renderCode()
+			cursor := t.next()
+			h := t.int()
+			if !ok {
+				return "err:code"
+			}
+			r := verifhook.SuicRenderLines(code, cursor, h)
+			return fmtRender(r) + fmtLinesInfo(r, code) + fmtWin(r)
+		case "mem":
+			mem := t.renderMem()
+			cursor := t.next()
+			h := t.int()
+			r := verifhook.SuicRenderMem(mem, cursor, h)
+			return fmtRender(r) + fmtMemInfo(r) + fmtWin(r)
+		case "regs":
+			stat := t.renderRegs()
+			h := t.int()
+			return fmtRender(verifhook.SuicRenderRegs(stat, h))
+		case "prompt":
+			return fmtRender(verifhook.SuicRenderPrompt(t.int()))
+		case "comp":
+			return renderComp(t)
+		default:
+			panic(parseError("bad render kind " + what))
+		}
+	})
+	register("phicut", func(t *tokens) string {
+		return fmt.Sprintf("%d", phiCut(t.int()))
+	})
+	register("phisweep", func(t *tokens) string {
+		lo := t.int()
+		cnt := t.int()
+		if cnt < 0 || cnt > 100000 {
+			panic(parseError("bad count"))
+		}
+		var sb strings.Builder
+		for i := 0; i < cnt; i++ {
+			if i > 0 {
+				sb.WriteByte(' ')
+			}
+			fmt.Fprintf(&sb, "%d", phiCut(lo+i))
+		}
+		return sb.String()
+	})
+}
